@@ -52,6 +52,9 @@ def forced_cases(tier):
               # nearest-upscaling operators with a kernel (bilinear resize; align_corners variants) striped inside a cascade: odd bottom skirt
               ["conv3x3", "resize_bl2", "conv3x3"], ["resize_bl2", "conv3x3"], ["conv1x1", "resize_bl2"], ["conv3x3", "resize_bl2_ac", "conv3x3"],
               ["conv3x3", "resize_nn2_ac", "conv3x3"], ["resize_bl2", "dw3x3"],
+              # kernels that are taller than wide / wider than tall inside a cascade (the rolling buffer height follows the kernel HEIGHT)
+              ["conv3x3", "convg.k3x1.s1x1.S.c8"], ["convg.k3x1.s1x1.S.c8", "convg.k5x1.s1x1.S.c8"], ["convg.k5x2.s1x1.V.c8", "conv3x3"],
+              ["conv1x1", "convg.k7x3.s2x2.S.c8"], ["convg.k1x5.s1x1.S.c8", "convg.k1x3.s1x1.S.c8"], ["conv3x3", "dwg.k5x1.s1x1.S"], ["conv3x3", "maxg.k4x1.s1x1.S"],
               # two different tables inside one cascade
               ["conv3x3", "leaky_relu", "conv3x3"], ["leaky_relu", "conv3x3", "logistic"], ["logistic", "conv1x1", "tanh"]]
     hists = []
